@@ -57,7 +57,9 @@ def gen(ctx, n):
             scs.append(T.gen_rowprop(rng))
         elif r < 0.55:
             scs.append(T.gen_degenerate(rng))
-        elif r < 0.72:
+        elif r < 0.62:
+            scs.append(T.gen_queries(rng))        # bounds / lb / ub / value / equates on interval classes
+        elif r < 0.74:
             scs.append(T.gen_batch(rng))          # several literals of one variable in one propagation batch
         elif r < 0.86:
             scs.append(T.gen_row_batch(rng))      # the same along a tableau row
@@ -185,6 +187,13 @@ def run(ctx):
     #      set_lb / set_ub; feasibility of conjunctions re-checked after backtracking from batch conflicts)
     n_exp, bad_exp = T.check_expectations(ctx, report, scs, "E reset".join([""] + out["impl_text"].split("E reset")[1 + len(diff_corp):]), "generated")
     cov["expectations_checked"] = n_exp
+    # ---- the query functions, judged independently of the model (python Fractions with infinitesimals)
+    nq, badq = T.judge_queries(impl)
+    cov["queries_judged"] = nq
+    cov["query_interval_classes"] = dict(sorted(T.judge_queries.classes.items()))
+    for b in badq[:3]:
+        report(ctx, "lra:query:" + b["event"].split()[1], {"kind": "query-answer-differs-from-exact-interval-arithmetic", "script": scripts[b["scenario"]],
+                                                           "event": b["event"], "expected": b["expected"], "implementation": b["got"]})
     # ---- which lemma / conflict branches of lra_constraint.cpp were reached
     cov["branches_from_trace"] = dict(sorted(T.classify_branches(impl).items()))
     try:
